@@ -152,5 +152,88 @@ theorem applyAll_last (h : H) (ops : List (Nat × Nat)) (hw : WF h) (c p : Nat)
     rw [hp] at this
     exact hq (Option.some.inj this).symm
 
+/-! ## What a peer really carries out: local `set_parent`s and guarded handlers, mixed
+
+A local `set_parent` is one `add_child` (no guard: an entity re-parented to the parent it already has moves to the end
+of that parent's list). A received `EntityParented` goes through the handler, which does `set_parent; add_child` only
+when the link differs. A peer's history is a mix of the two. -/
+
+/-- the `EntityParented` handler with its guard -/
+def handle (h : H) (p c : Nat) : H := if h.par c = some p then h else applyParented h p c
+
+/-- one operation of a peer: `(true, p, c)` a handled message, `(false, p, c)` a local `set_parent` -/
+def stepOp (h : H) (o : Bool × Nat × Nat) : H := if o.1 then handle h o.2.1 o.2.2 else addChild h o.2.1 o.2.2
+
+def runOps (h : H) (ops : List (Bool × Nat × Nat)) : H := ops.foldl stepOp h
+
+theorem handle_wf (h : H) (p c : Nat) (hw : WF h) : WF (handle h p c) := by
+  unfold handle; split
+  · exact hw
+  · exact applyParented_wf h p c hw
+
+theorem handle_par (h : H) (p c x : Nat) : (handle h p c).par x = if c = x then some p else h.par x := by
+  unfold handle; split
+  · rename_i e
+    by_cases ex : c = x
+    · subst ex; simp [e]
+    · simp [ex]
+  · exact applyParented_par h p c x
+
+/-- a repeated message changes nothing: the guard stops the second application (and with it the `Changed<Parent>`
+that would be announced again) -/
+theorem handle_idem (h : H) (p c : Nat) : handle (handle h p c) p c = handle h p c := by
+  have : (handle h p c).par c = some p := by rw [handle_par]; simp
+  generalize handle h p c = g at this ⊢
+  unfold handle
+  rw [if_pos this]
+
+theorem addChild_par (h : H) (p c x : Nat) : (addChild h p c).par x = if c = x then some p else h.par x := by
+  simp only [addChild]
+  by_cases e : x = c
+  · subst e; simp
+  · have e' : ¬ c = x := fun q => e q.symm
+    simp [e, e']
+
+theorem stepOp_wf (h : H) (o : Bool × Nat × Nat) (hw : WF h) : WF (stepOp h o) := by
+  unfold stepOp; split
+  · exact handle_wf h _ _ hw
+  · exact addChild_wf h _ _ hw
+
+theorem stepOp_par (h : H) (o : Bool × Nat × Nat) (x : Nat) :
+    (stepOp h o).par x = if o.2.2 = x then some o.2.1 else h.par x := by
+  unfold stepOp; split
+  · exact handle_par h _ _ x
+  · exact addChild_par h _ _ x
+
+theorem runOps_wf (h : H) (ops : List (Bool × Nat × Nat)) (hw : WF h) : WF (runOps h ops) := by
+  induction ops generalizing h with
+  | nil => exact hw
+  | cons o ops ih => exact ih _ (stepOp_wf h o hw)
+
+theorem runOps_par (h : H) (ops : List (Bool × Nat × Nat)) (c : Nat) :
+    (runOps h ops).par c = lastOp c (ops.map (·.2)) (h.par c) := by
+  induction ops generalizing h with
+  | nil => rfl
+  | cons o ops ih =>
+    have := ih (stepOp h o)
+    simp only [runOps, List.foldl_cons, lastOp, List.map_cons] at this ⊢
+    rw [this, stepOp_par]
+
+/-- mixed histories on two peers (what one did locally the other handled as a message, and the other way round; the
+operations of different children in any order): same last operation per child → same links, each child exactly once
+under its parent and nowhere else, on both -/
+theorem runOps_agree (h1 h2 : H) (ops1 ops2 : List (Bool × Nat × Nat)) (hw1 : WF h1) (hw2 : WF h2)
+    (hp : ∀ c, h1.par c = h2.par c)
+    (hl : ∀ c, lastOp c (ops1.map (·.2)) none = lastOp c (ops2.map (·.2)) none) :
+    (∀ c, (runOps h1 ops1).par c = (runOps h2 ops2).par c) ∧
+    ∀ c q, ((runOps h1 ops1).ch q).count c = ((runOps h2 ops2).ch q).count c ∧
+      ((runOps h1 ops1).ch q).count c = if (runOps h1 ops1).par c = some q then 1 else 0 := by
+  have hpar : ∀ c, (runOps h1 ops1).par c = (runOps h2 ops2).par c := by
+    intro c
+    rw [runOps_par, runOps_par, lastOp_init c (ops1.map (·.2)), lastOp_init c (ops2.map (·.2)), hl c, hp c]
+  refine ⟨hpar, fun c q => ?_⟩
+  rw [wf_count _ (runOps_wf h1 ops1 hw1), wf_count _ (runOps_wf h2 ops2 hw2), hpar c]
+  exact ⟨rfl, rfl⟩
+
 end Hier
 end BevySync
